@@ -14,25 +14,25 @@ Proof.
 Qed.
 
 Lemma parse_tail_not_op limit fuel d m ts :
-  not_op_head ts -> parse_tail limit fuel d m ts = Ok (m, ts).
+  not_op_head ts -> parse_tail limit (S fuel) d m ts = Ok (true, m, ts).
 Proof.
-  intros H. destruct fuel; [reflexivity|]. cbn [parse_tail].
-  destruct ts as [|[] ts']; try reflexivity. destruct H.
+  intros H. cbn [parse_tail]. destruct ts as [|[] ts']; try reflexivity. destruct H.
 Qed.
 
 (* n nested parentheses are accepted without a limit and reach level d + n *)
 Lemma nest_parse :
-  forall n fuel d rest, (2 * n + 1 <= fuel)%nat -> not_op_head rest ->
-    parse_term None fuel d (nest n ++ rest) = Ok (d + Z.of_nat n, rest).
+  forall n fuel d rest, (3 * n + 3 <= fuel)%nat -> not_op_head rest ->
+    parse_expr None fuel d (nest n ++ rest) = Ok (true, d + Z.of_nat n, rest).
 Proof.
   induction n as [|n IH]; intros fuel d rest Hf Hr.
-  - destruct fuel as [|f]; [lia|]. cbn [nest repeat app parse_term].
-    rewrite parse_tail_not_op by exact Hr. f_equal. f_equal. lia.
+  - destruct fuel as [|[|[|f]]]; try lia. cbn [nest repeat app parse_expr parse_term].
+    rewrite parse_tail_not_op by exact Hr. f_equal. f_equal. f_equal. lia.
   - rewrite nest_cons.
     destruct fuel as [|[|f]]; try lia.
-    cbn [parse_term inner].
+    cbn [parse_expr parse_term].
     rewrite (IH f (d + 1) (TRp :: rest)) by (cbn; trivial; lia).
-    rewrite parse_tail_not_op by exact Hr. f_equal. f_equal. lia.
+    destruct f as [|f']; [lia|].
+    rewrite parse_tail_not_op by exact Hr. f_equal. f_equal. f_equal. lia.
 Qed.
 
 Lemma nest_length n : length (nest n) = (2 * n + 1)%nat.
@@ -61,82 +61,86 @@ Proof.
   exists ts, d. split; [exact H|]. unfold stack_frames, frames_per_level. lia.
 Qed.
 
-(* with a guard L every accepted expression stays within L levels *)
-Lemma limit_invariant L :
+(* the level reported is between the current level and the limit *)
+Lemma depth_invariant limit :
   forall fuel d,
-    d <= L ->
-    (forall ts m rest, parse_term (Some L) fuel d ts = Ok (m, rest) -> m <= L) /\
-    (forall ts m rest, inner (Some L) fuel d ts = Ok (m, rest) -> d + 1 <= L -> m <= L) /\
-    (forall ts m0 m rest, m0 <= L -> parse_tail (Some L) fuel d m0 ts = Ok (m, rest) -> m <= L).
+    (forall ts nn m rest, parse_term limit fuel d ts = Ok (nn, m, rest) ->
+        d <= m /\ (forall L, limit = Some L -> d <= L -> m <= L)) /\
+    (forall ts nn m rest, parse_expr limit fuel d ts = Ok (nn, m, rest) ->
+        d <= m /\ (forall L, limit = Some L -> d <= L -> m <= L)) /\
+    (forall ts m0 nn m rest, parse_tail limit fuel d m0 ts = Ok (nn, m, rest) ->
+        m0 <= m /\ (forall L, limit = Some L -> d <= L -> m0 <= L -> m <= L)).
 Proof.
-  induction fuel as [|f IH]; intros d Hd.
-  - repeat split; intros; cbn in *; try discriminate.
-    match goal with H : Ok _ = Ok _ |- _ => injection H as <- _ end. assumption.
-  - repeat split.
-    + intros ts m rest H. cbn [parse_term] in H.
-      destruct ts as [|[] ts']; try discriminate.
-      * destruct (L <? d + 1) eqn:E; [discriminate|]. apply Z.ltb_ge in E.
-        destruct (IH d Hd) as [_ [Hi _]]. eapply Hi; [exact H | lia].
-      * destruct (IH d Hd) as [_ [_ Ht]]. eapply Ht; [exact Hd | exact H].
-    + intros ts m rest H Hd1. cbn [inner] in H.
-      destruct (parse_term (Some L) f (d + 1) ts) as [[m1 r1]|e] eqn:E; [|discriminate].
-      destruct r1 as [|[] r1']; try discriminate.
-      destruct (IH (d + 1) Hd1) as [Hp _]. apply Hp in E.
-      destruct (IH d Hd) as [_ [_ Ht]]. eapply Ht; [exact E | exact H].
-    + intros ts m0 m rest Hm0 H. cbn [parse_tail] in H.
+  induction fuel as [|f IH]; intros d.
+  - repeat split; intros; cbn in *; discriminate.
+  - destruct (IH d) as [IHt [IHe IHl]]. destruct (IH (d + 1)) as [_ [IHe1 _]].
+    split; [|split].
+    + intros ts nn m rest H. cbn [parse_term] in H.
+      destruct ts as [|[] ts'].
+      * injection H as <- <- <-. split; [lia | intros; assumption].
+      * destruct (match limit with Some L => L <? d + 1 | None => false end) eqn:Elim; [discriminate|].
+        destruct (parse_expr limit f (d + 1) ts') as [[[nn1 m1] r1]|e] eqn:E; [|discriminate].
+        destruct r1 as [|[] r1']; try discriminate.
+        injection H as <- <- <-.
+        apply IHe1 in E as [Hge Hle]. split; [lia|].
+        intros L HL HdL. subst limit. apply Z.ltb_ge in Elim. apply (Hle L eq_refl). lia.
+      * injection H as <- <- <-. split; [lia | intros; assumption].
+      * injection H as <- <- <-. split; [lia | intros; assumption].
+      * injection H as <- <- <-. split; [lia | intros; assumption].
+    + intros ts nn m rest H. cbn [parse_expr] in H.
+      destruct (parse_term limit f d ts) as [[[nn1 m1] r1]|e] eqn:E; [|discriminate].
+      apply IHt in E as [Hge Hle].
+      destruct nn1.
+      * apply IHl in H as [Hge2 Hle2]. split; [lia|].
+        intros L HL HdL. apply (Hle2 L HL HdL). apply (Hle L HL HdL).
+      * injection H as <- <- <-. split; [lia | exact Hle].
+    + intros ts m0 nn m rest H. cbn [parse_tail] in H.
       destruct ts as [|[] ts'];
-        try (injection H as <- _; assumption).
-      destruct (parse_term (Some L) f d ts') as [[m1 r1]|e] eqn:E; [|discriminate].
-      injection H as <- _.
-      destruct (IH d Hd) as [Hp _]. apply Hp in E. lia.
+        try (injection H as <- <- <-; split; [lia | intros; assumption]).
+      destruct (parse_term limit f d ts') as [[[nn1 m1] r1]|e] eqn:E; [|discriminate].
+      destruct nn1; [|discriminate].
+      apply IHt in E as [Hge Hle].
+      apply IHl in H as [Hge2 Hle2]. split; [lia|].
+      intros L HL HdL Hm0. apply (Hle2 L HL HdL). specialize (Hle L HL HdL). lia.
 Qed.
 
 Lemma parse_depth_le_limit_proof :
   forall L ts d, 0 <= L -> parse_depth (Some L) ts = Ok d -> d <= L.
 Proof.
   intros L ts d HL H. unfold parse_depth in H.
-  destruct (parse_term (Some L) (3 * length ts + 3) 0 ts) as [[m r]|e] eqn:E; [|discriminate].
-  destruct r; [|discriminate]. injection H as <-.
-  destruct (limit_invariant L (3 * length ts + 3) 0 HL) as [Hp _]. eapply Hp. exact E.
+  destruct (parse_expr (Some L) (3 * length ts + 3) 0 ts) as [[[nn m] r]|e] eqn:E; [|discriminate].
+  injection H as <-.
+  destruct (depth_invariant (Some L) (3 * length ts + 3) 0) as [_ [He _]].
+  apply He in E as [_ Hle]. apply (Hle L eq_refl HL).
 Qed.
 
-(* and an input nested more deeply than the guard is rejected, not parsed *)
+(* an accepted nest n reaches level n whatever the limit, so a limit below n rejects it *)
+Lemma nest_reaches limit :
+  forall n fuel d rest nn m r,
+    parse_expr limit fuel d (nest n ++ rest) = Ok (nn, m, r) -> d + Z.of_nat n <= m.
+Proof.
+  induction n as [|n IH]; intros fuel d rest nn m r H.
+  - destruct (depth_invariant limit fuel d) as [_ [He _]]. apply He in H as [Hge _]. lia.
+  - rewrite nest_cons in H. destruct fuel as [|[|f]]; try discriminate.
+    cbn [parse_expr parse_term] in H.
+    destruct (match limit with Some L => L <? d + 1 | None => false end); [discriminate|].
+    destruct (parse_expr limit f (d + 1) (nest n ++ TRp :: rest)) as [[[nn1 m1] r1]|e] eqn:E; [|discriminate].
+    destruct r1 as [|[] r1']; try discriminate.
+    apply IH in E.
+    destruct nn1.
+    + destruct (depth_invariant limit (S f) d) as [_ [_ Hl]]. apply Hl in H as [Hge _]. lia.
+    + injection H as <- <- <-. lia.
+Qed.
+
 Lemma nest_rejected_over_limit :
   forall L n, 0 <= L -> L < Z.of_nat n -> exists e, parse_depth (Some L) (nest n) = Err e.
 Proof.
   intros L n HL Hn.
   destruct (parse_depth (Some L) (nest n)) as [d|e] eqn:E; [|eauto].
   exfalso.
-  (* an accepted nest n would have depth n: the parser's result does not depend on the limit
-     when it accepts; shown through the level reached *)
-  assert (Hge : forall fuel d0 rest m r,
-             parse_term (Some L) fuel d0 (nest n ++ rest) = Ok (m, r) -> d0 + Z.of_nat n <= m).
-  { clear E d Hn. induction n as [|n IH]; intros fuel d0 rest m r H.
-    - destruct fuel; [discriminate|]. cbn [nest repeat app parse_term] in H.
-      assert (Hmono : forall f d1 m1 ts m2 r2, parse_tail (Some L) f d1 m1 ts = Ok (m2, r2) -> m1 <= m2).
-      { intros f d1 m1 ts m2 r2 Ht. destruct f; cbn [parse_tail] in Ht.
-        - injection Ht as <- _. lia.
-        - destruct ts as [|[] ts']; try (injection Ht as <- _; lia).
-          destruct (parse_term (Some L) f d1 ts') as [[m3 r3]|]; [|discriminate].
-          injection Ht as <- _. lia. }
-      apply Hmono in H. lia.
-    - rewrite nest_cons in H. destruct fuel as [|[|f]]; try discriminate.
-      + cbn [parse_term] in H. destruct (L <? d0 + 1); discriminate.
-      + cbn [parse_term inner] in H.
-        destruct (L <? d0 + 1); [discriminate|].
-        destruct (parse_term (Some L) f (d0 + 1) (nest n ++ TRp :: rest)) as [[m1 r1]|] eqn:E1; [|discriminate].
-        destruct r1 as [|[] r1']; try discriminate.
-        apply IH in E1.
-        assert (Hmono : forall f d1 m1 ts m2 r2, parse_tail (Some L) f d1 m1 ts = Ok (m2, r2) -> m1 <= m2).
-        { intros f0 d1 m2 ts m3 r2 Ht. destruct f0; cbn [parse_tail] in Ht.
-          - injection Ht as <- _. lia.
-          - destruct ts as [|[] ts']; try (injection Ht as <- _; lia).
-            destruct (parse_term (Some L) f0 d1 ts') as [[m4 r4]|]; [|discriminate].
-            injection Ht as <- _. lia. }
-        apply Hmono in H. lia. }
   pose proof (parse_depth_le_limit_proof L (nest n) d HL E) as Hle.
   unfold parse_depth in E.
-  destruct (parse_term (Some L) (3 * length (nest n) + 3) 0 (nest n)) as [[m r]|] eqn:E2; [|discriminate].
-  destruct r; [|discriminate]. injection E as <-.
-  rewrite <- (app_nil_r (nest n)) in E2 at 2. apply Hge in E2. lia.
+  destruct (parse_expr (Some L) (3 * length (nest n) + 3) 0 (nest n)) as [[[nn m] r]|] eqn:E2; [|discriminate].
+  injection E as <-.
+  rewrite <- (app_nil_r (nest n)) in E2 at 2. apply nest_reaches in E2. lia.
 Qed.
